@@ -46,6 +46,17 @@ class SchedLock:
         self.owner = None
 
 
+class _Cond:
+    """Lock-like view of a condition for the runnable() test: 'owned' while it does not hold."""
+
+    def __init__(self, pred):
+        self.pred = pred
+
+    @property
+    def owner(self):
+        return None if self.pred() else self
+
+
 class MThread:
     def __init__(self, sched, tid, name, body):
         self.sched, self.tid, self.name, self.body = sched, tid, name, body
@@ -77,9 +88,12 @@ class MThread:
 
 
 class Sched:
-    def __init__(self, w, budget):
+    def __init__(self, w, budget, atomic=()):
         self.w = w
         self.budget = budget
+        # repository modules whose functions only touch objects local to the calling thread:
+        # no pre-emption points inside them (a switch there is equivalent to one before the call)
+        self.atomic = tuple(atomic)
         self.threads = []
         self.back = _Event()
         self.trace = []
@@ -113,7 +127,7 @@ class Sched:
         mod = getattr(f.fn, "__module__", "") or ""
         if isinstance(s, ast.Expr) and isinstance(s.value, ast.Constant):
             return  # docstrings / bare constants compile to nothing: no line event natively
-        if mod.startswith("mysensors"):
+        if mod.startswith("mysensors") and mod not in self.atomic:
             self.yield_point(t, f"{getattr(f.fn, '__name__', '?')}:{s.lineno}")
 
     def _lines(self, filename):
@@ -132,6 +146,8 @@ class Sched:
     def _global_trace(self, t, frame):
         fn = frame.f_code.co_filename
         if not fn.startswith(REPO_PREFIX):
+            return None
+        if ("mysensors." + fn[len(REPO_PREFIX):-3].replace("/", ".")) in self.atomic:
             return None
         starts = self._lines(fn)
         state = {"span": None}
@@ -167,6 +183,16 @@ class Sched:
             self.yield_point(t, "blocked")
         t.blocked_on = None
         lock.owner = t
+
+    def wait_until(self, pred, label="wait"):
+        """The current thread sleeps / polls until pred() holds (idle polling iterations that
+        change nothing are abstracted to one blocking wait)."""
+        t = self.current
+        cond = _Cond(pred)
+        while not pred():
+            t.blocked_on = cond
+            self.yield_point(t, label)
+        t.blocked_on = None
 
     # -- the scheduler loop ---------------------------------------------------------------------
     def runnable(self):
